@@ -14,4 +14,7 @@ PROPS = {
     "C05": dict(pkg="./props/c05", level="exploration",
                 quick=dict(shards=12, checks=3600, timeout=300),
                 thorough=dict(shards=16, checks=64000, timeout=1800)),
+    "C09": dict(pkg="./props/c09", level="exploration",
+                quick=dict(shards=12, checks=1200, timeout=150),
+                thorough=dict(shards=16, checks=16000, timeout=1800)),
 }
